@@ -460,18 +460,29 @@ func PublishContext[T any](bus *EventBus, ctx context.Context, event T) {
 					defer handler.endTurn()
 				}
 
-				// Check context before executing
+				// Check context before executing. A Once handler claimed by this
+				// publish runs even if the context was cancelled after the claim:
+				// skipping it now would use it up without it ever having run.
+				done := ctx.Done()
+				if handler.once {
+					done = nil
+				}
 				select {
-				case <-ctx.Done():
+				case <-done:
 					return
 				default:
 					callHandlerWithContext(handler, ctx, event, bus.panicHandler, bus.observability, eventTypeName, true)
 				}
 			}(h)
 		} else {
-			// Check context cancellation for sync handlers too
+			// Check context cancellation for sync handlers too (not for a Once
+			// handler this publish has just claimed, see above)
+			done := ctx.Done()
+			if h.once {
+				done = nil
+			}
 			select {
-			case <-ctx.Done():
+			case <-done:
 				continue // Skip if context cancelled
 			default:
 				callHandlerWithContext(h, ctx, event, bus.panicHandler, bus.observability, eventTypeName, false)
